@@ -115,6 +115,7 @@ def c12(run):
     r_session.run_rel_owed(run, P)
     from rules import r_expiry
     r_expiry.run(run, P)
+    r_expiry.run_free_candidates(run, P)
     r_session.run_ref_hold(run, P)
     r_session.run_ref_stale(run, P)
     r_session.run_sess_evt(run, P)
@@ -202,6 +203,7 @@ def c03(run):
     r_codec.run_option_limits(run, P)
     from rules import r_misc12 as _m12
     _m12.run_marker_whole_byte(run, P)
+    _m12.run_token_skip_agrees(run, P)
     _m12.run_short_unit_parsed(run, P)
     r_parsegate.run(run, P)
     r_parsegate.run_outputs(run, P)
@@ -359,6 +361,7 @@ def c08(run):
     r_cnt.run_park_reasons(run, P)
     from rules import r_misc12
     r_misc12.run_no_callout_in_window(run, P)
+    r_misc12.run_counter_decrement(run, P)
     from rules import r_delayq
     r_delayq.run(run, P)                 # if the session fails, each held Confirmable is reported by a NACK
     from rules import r_midzero
@@ -385,6 +388,7 @@ def c06(run):
     from rules import r_misc12
     r_misc12.run_timeout_drawn(run, P)
     r_misc12.run_unlink_before_callout(run, P)
+    r_misc12.run_min_update(run, P)
     from rules import r_cnt
     r_cnt.run_counted_queued(run, P)     # a counted Confirmable is queued for retransmission (or un-counted): it cannot vanish without an outcome
     from rules import r_timer
@@ -540,6 +544,7 @@ def c14(run):
     from rules import r_misc12
     r_misc12.run_weak_lookup(run, P)
     r_misc12.run_rekey_complete(run, P)
+    run.require_count(r_misc12.run_store_then_zeroed(run, P) >= 10 or run.cfg != 'base', 'R-LOST-STORE (stored, then zeroed): fewer than 10 zeroing memset() calls found')
     r_oscsplit.run_flag_reach(run, P)
     r_oscsplit.run_match_acc(run, P)
     r_oscsplit.run_outer_discard(run, P)
@@ -606,6 +611,7 @@ def c02(run):
     _rw5.run_h(run, P)                   # the declared length of a stream message is computed without wrapping before it is compared with the limits
     r_parsegate.run(run, P)
     r_fixup.run_stale(run, P)
+    r_parsegate.run_verdict(run, P)      # a rejection recorded for one option is not overwritten by the verdict on the next
     r_fixup.run_pairing(run, P)          # the in-place editors also run on RECEIVED requests (coap_option_check_critical() re-encodes Block2): payload pointer and size move together
     from rules import r_cmpbound
     r_cmpbound.run(run, P)
@@ -654,6 +660,7 @@ def c07(run):
     from rules import r_misc12 as _m12
     _m12.run_filter_field_recorded(run, P)
     _m12.run_rst_for_any_type(run, P)
+    _m12.run_counter_decrement(run, P)   # a wrapped in-flight count parks the request for ever: neither response nor NACK
     from rules import r_pairargs
     r_pairargs.run_token_identity(run, P)    # the request a response retires is found by its token, whatever the token's length
     from rules import r_ownnode
@@ -686,6 +693,8 @@ def c11(run):
     r_observe.run_delete_all(run, P)
     r_observe.run_fail_count(run, P)
     r_observe.run_counter_owner(run, P)
+    from rules import r_misc12 as _m12b
+    _m12b.run_copy_length_of_own_field(run, P)   # the Observe value of a block-wise request is kept with its own length
     from rules import r_cnt
     r_cnt.run_dequeue(run, P)            # a Reset (or ACK) that retires a Confirmable notification gives the NSTART slot back: otherwise every sixth notification is postponed for ever
     from rules import r_misc12
